@@ -21,7 +21,7 @@ CHECKS = {
              "response code) variant, area tables and keys, byte-sized session area, encryption flag provenance, header-only "
              "failed responses; W10 (= C05-E3) the pump's one silent return is restricted to the command/response stream, so no "
              "root event of a top-level decode is swallowed; W11 payload-kind table of the size-prefixed walker; W12 no discarded "
-             "generators; W13 (= C04-V4) every member of a named range is a member. Event values for concrete bytes are not decided. W14 every walker hands (size, value) back on every completing path. W15 the pump hands type, root path, command code, encryption flag and mode to the dispatcher; F also: the response's encryption cross-check is evaluated only in variants that decode a session area. Round 7: W7 has a folding mode - when the arm is not looked up in an inverted copy of _selected_by the union walker is evaluated (tpmsa.minieval, sub-decodes stubbed) for every reachable union and every selector value of its table plus one outside it (109 cases); F compares the encryption request in its normal form (tpmsa.encreq).",
+             "generators; W13 (= C04-V4) every member of a named range is a member. Event values for concrete bytes are not decided. W14 every walker hands (size, value) back on every completing path. W15 the pump hands type, root path, command code, encryption flag and mode to the dispatcher; F also: the response's encryption cross-check is evaluated only in variants that decode a session area. Round 7: W7 has a folding mode - when the arm is not looked up in an inverted copy of _selected_by the union walker is evaluated (tpmsa.minieval, sub-decodes stubbed) for every reachable union and every selector value of its table plus one outside it (109 cases); F compares the encryption request in its normal form (tpmsa.encreq). Round 8: W7 folds whenever the selection is not the pinned inverted table and evaluates project classes / memoised helpers the walker uses; the dispatcher is recognised through a classification tag and a walker table (normal form N31).",
         note="trusted: CPython ast; E1 model (guards G1-G7); semantics of int.from_bytes, dataclasses.fields order and generators.",
         technique="pinned table snapshot + decision-list evaluation over all type descriptors + partial evaluation / def-use rules on the walkers",
         design="4/C01",
@@ -55,7 +55,7 @@ CHECKS = {
              "classes; R6 counts are never tested by truthiness; R7 error details and skip amounts as linear forms; R8 outcome "
              "tables of bytes_parsed / assert_done over their path summaries (closed -> obsolete error; armed and counted + size > "
              "limit -> anticipated error / retire, skip the rest, exceeded error; close quiet iff counted == limit); R9 no "
-             "generator of the decode core is created and discarded. Concrete sizes are not computed. R2 judges the effective anticipate_only of the charge site including the callee's default. R10 (= C01-F + C09-S3) the layout chosen for the parameter area follows the right session bit: the encryption flag of the first parameter in its normal form.",
+             "generator of the decode core is created and discarded. Concrete sizes are not computed. R2 judges the effective anticipate_only of the charge site including the callee's default. R10 (= C01-F + C09-S3) the layout chosen for the parameter area follows the right session bit: the encryption flag of the first parameter in its normal form. Region methods that hand the skip to the driver as a request object are a protocol change that is not followed (analysis error, no verdict).",
         note="trusted: CPython ast; L (E1). Comparisons on runtime integers are deliberately not pattern-matched.",
         technique="partial evaluation (loop specialisation) + typestate over abstract traces, CFG dominance, who-may-call rules",
         design="4/C03",
@@ -70,7 +70,7 @@ CHECKS = {
              "V4 the membership chain (_INT.is_valid, ValidValues.__contains__/get, NamedRange, enum class membership) has "
              "the membership meaning - decided as decision tables over path summaries, NamedRange as an abstract data type (the "
              "constructor's bindings substituted into the observers' conditions: member exactly for start <= n < end); V5 valid-value and naming facets of all 719 pinned types (exhaustive); V6 unknown "
-             "command code -> ValueConstraintViolatedError with ValidValues(TPM_CC). The iff over concrete values is not decided. V6 also checks the declared type named by the unknown-command-code error. V7 (= C15-F1) every front-end hands the caller's options and the decoder's default mode on.",
+             "command code -> ValueConstraintViolatedError with ValidValues(TPM_CC). The iff over concrete values is not decided. V6 also checks the declared type named by the unknown-command-code error. V7 (= C15-F1) every front-end hands the caller's options and the decoder's default mode on. V1's raise-after-event is judged per feasible path.",
         note="trusted: CPython ast; E1 model (guards G1-G7); 'first offending field' relies on C01-W4 ordering.",
         technique="CFG dominance + def-use + who-may-call rule + pinned valid-value tables",
         design="4/C04",
@@ -100,7 +100,7 @@ CHECKS = {
              "(C20 T1-T5, W1), the specialised traces (C03-R1, C01-F), the pump typestate (C10-T1) or call-site shapes; an "
              "undischarged site is reported with its input dependence; encrypted() is folded over all parameter areas of L and "
              "must not raise on any; X3 every resolvable call in the decode core matches its callee's signature. X2 termination: acyclic type graph, messages and "
-             "byte-sized list elements consume >= 1 byte, only bounded data-driven loop forms, one pull per pump iteration. X5: no read of a local that no assignment reaches, no name bound nowhere (symtable), in the decode core; one handler proven unreachable for command codes in TPM_CC is not judged (DESIGN 4, round-6 note).",
+             "byte-sized list elements consume >= 1 byte, only bounded data-driven loop forms, one pull per pump iteration. X5: no read of a local that no assignment reaches, no name bound nowhere (symtable), in the decode core; one handler proven unreachable for command codes in TPM_CC is not judged (DESIGN 4, round-6 note). X6 (= C19-L4) the type search decodes a Response only with members of TPM_CC (what the exemption of the unknown-command-code handler rests on).",
         note="trusted: CPython ast; L (E1). Implicit failures outside the closed idiom list (e.g. a TypeError from an operator on "
              "an unexpected object) are not excluded - no untyped-Python static analysis can. Open finding K2 is listed in "
              "known_findings.json. Assumes the command_code argument is a TPM_CC member.",
@@ -115,7 +115,7 @@ CHECKS = {
              "it unchanged (36 sites); NI-3 on every CFG path from a mode test's false edge the first thing yielded is "
              "WarningEvent(error=e) with the same e (only the offending primitive's own event may precede it), and no "
              "WarningEvent is constructed anywhere else. Hence both modes execute the same statements on the same data up "
-             "to the first error object - the property's core, for all inputs. NI-4 (= C02-B3) for an out-of-range value the offending event is emitted first, then the warning: on every completed path of the primitive walker.",
+             "to the first error object - the property's core, for all inputs. NI-4 (= C02-B3) for an out-of-range value the offending event is emitted first, then the warning: on every completed path of the primitive walker. NI-1 accepts a mode test nested under an existence test of the error; the warning-site count is an upper bound.",
         note="trusted: CPython ast; error objects are truthy; method calls resolved by receiver constructor (over-approximated "
              "when unknown). Which events are emitted is not decided, only that the two runs coincide.",
         technique="information-flow / non-interference lint + CFG path search from each mode test",
@@ -158,7 +158,7 @@ CHECKS = {
              "with no byte request in between. T2: the buffer parameters of the pump and of the three lazy front-end "
              "scanners are used only through iter()/next() (except inside raise). T3: the processor never receives the "
              "buffer or iterator. T6: a scanner starts one traversal of its raw source only (bytes / lists restart). T5 (= C05-E3): the empty prefix of a non-stream decode reports depletion like every other "
-             "prefix. This is the structural core of the property; concrete pull counts are its dynamic view. T6 also: next() only on an iterator made from the source (never on the raw parameter). T7 (= C15-F11): a character obtained with next(it, default) reaches int(..., 16) only where the default was excluded. T2 also covers the front-end functions (hex / swtpm / auto marshal): no pre-read or materialisation of the caller's source.",
+             "prefix. This is the structural core of the property; concrete pull counts are its dynamic view. T6 also: next() only on an iterator made from the source (never on the raw parameter). T7 (= C15-F11): a character obtained with next(it, default) reaches int(..., 16) only where the default was excluded. T2 also covers the front-end functions (hex / swtpm / auto marshal): no pre-read or materialisation of the caller's source. T8 no closure made in a loop over the sources reads its loop variable late (every reader would read the last source).",
         note="trusted: CPython ast; Python iterator/generator protocol. pcapng.marshal materialises its input by design (documented in the code) and is outside T2.",
         technique="CFG + typestate abstract interpretation of the pump, who-may-use rules on iterator/buffer variables",
         design="4/C10",
@@ -172,7 +172,7 @@ CHECKS = {
              "tables and keys, recognise encrypted areas by TPM2B_ENCRYPTED_PARAM's field names, remember a Response's command "
              "code; A5 sibling rule: every node the decoder announces with an event but returns as None is mapped to None by "
              "the events->object builder too; A7 (= C01-W7) a union arm without payload decodes to None. A1-A5 are decided on path summaries (hidden / marker / list parent / value per field "
-             "as a decision list), not on the text of the branches. These are necessary conditions; the round trips themselves are not decided. A8: no unbound local / undefined name in common/object.py. A9 (= C19-L9 = C15-F2) every front-end returns the decoder's result; A2 folds the union test of obj_to_events over every layout class; A4 finds the member-type resolver by role (closure or function handed the caller's variables).",
+             "as a decision list), not on the text of the branches. These are necessary conditions; the round trips themselves are not decided. A8: no unbound local / undefined name in common/object.py. A9 (= C19-L9 = C15-F2) every front-end returns the decoder's result; A2 folds the union test of obj_to_events over every layout class; A4 finds the member-type resolver by role (closure or function handed the caller's variables). A1's set of invisible members may be any literal collection.",
         note="trusted: CPython ast; L (E1); dataclass equality semantics.",
         technique="agreement (sibling) rules between decoder traces, the static layout model and the two converters",
         design="4/C11",
@@ -184,7 +184,7 @@ CHECKS = {
              "receiver is a module-level or class-level object; P2 every memoising decorator in reachable code is unbounded or "
              "has capacity >= the key space from L (234 parameter areas); P3 no mutable defaults, no module-level "
              "generators/iterators; P5 (= C09-S2) nothing the response decode of a stream is given is left over from an earlier pair. "
-             "Together with Python's determinism this is the property's structural core. P4: no caller mutates the result of a memoised function (checked on the unmodified source).",
+             "Together with Python's determinism this is the property's structural core. P4: no caller mutates the result of a memoised function (checked on the unmodified source). P6 a mutable container written in a class body is not mutated through an instance that has no copy of its own; P7 (= C17-M3) a cache keyed by a layout value is typed.",
         note="trusted: CPython ast; call resolution by name over repo classes (over-approximation); a module-level instance of a "
              "repo class is followed through one local alias and through methods that return self, deeper aliasing is not tracked.",
         technique="call-graph reachability + effect (purity) analysis + memoisation capacity check against the static layout model",
@@ -211,7 +211,7 @@ CHECKS = {
              "the folder never needs folding; Q4 row shape: indentation len(path)-1, value text form, hex column = binary "
              "re-encoding of that event (the row is compared as a function of the two column conditions on path summaries, colour "
              "codes stripped, nested f-strings and str.join flattened), attribute rows only from the main loop with path+PathNode(attr). The rendered text "
-             "is not decided. Q5 list folding mode by element type, one membership test (same enclosing path and field name), empty-list flag, the folder pulls; Q6 no unbound local / undefined name in the printers. Q7 no discarded generators in the printers; Q8 the byte buffer's translation table (folded) maps every byte to printable ASCII. Q6 also walks TPM_RC.__format__ / attributes() path by path (the symbolic walk of C18): a local read on a path that never assigned it is an UnboundLocalError for the codes of that path.",
+             "is not decided. Q5 list folding mode by element type, one membership test (same enclosing path and field name), empty-list flag, the folder pulls; Q6 no unbound local / undefined name in the printers. Q7 no discarded generators in the printers; Q8 the byte buffer's translation table (folded) maps every byte to printable ASCII. Q6 also walks TPM_RC.__format__ / attributes() path by path (the symbolic walk of C18): a local read on a path that never assigned it is an UnboundLocalError for the codes of that path. Q9 (= C17-M2 accessor fold): the text form lists a field exactly when its accessor gives a non-zero number; Q4 falls back to the row fold of C17-M2 when attribute rows are not built in place.",
         note="trusted: CPython ast; L (E1); C02-B2 for the hex column's content.",
         technique="must-dataflow (guard dominance) + typestate over the printer CFGs + FOLLOW-set facts from the static layout model",
         design="4/C14",
@@ -250,7 +250,7 @@ CHECKS = {
              "2**(8*size)-1. M2 evaluates the accessor Bit.__get__ (abstractly, nothing of the repository runs) for every mask "
              "of every attribute type with the register value symbolic - each bit a symbol, case split where the code branches "
              "on a bit - and requires the wiring (value & mask) >> trailing_zeros(mask) for all values at once; the printer "
-             "emits one row per mask with value bits under mask ones. The rendered strings for concrete values are not decided. M2 also: the decorator attaches attributes() and returns the class. M2 also: masks are sorted by a key. M2 accepts accessor(name, mask[, cls]) installed from a nested or module-level class; division by a power of two, `x & -x` and one-bit digit tests are exact on symbolic bit vectors.",
+             "emits one row per mask with value bits under mask ones. The rendered strings for concrete values are not decided. M2 also: the decorator attaches attributes() and returns the class. M2 also: masks are sorted by a key. M2 accepts accessor(name, mask[, cls]) installed from a nested or module-level class; division by a power of two, `x & -x` and one-bit digit tests are exact on symbolic bit vectors. M3 a memoised function keyed by a layout value is `typed=True` (values of different types with the same number compare and hash alike); accessors may be built first and installed in a second loop, attributes() may read a class-level table of prepared named masks.",
         note="trusted: CPython ast; E1 model of tpm_bitfield (guards G1/G5/G7 re-validated each run). Decides the "
              "table clause and the accessor/row shape, not concrete rendered strings.",
         technique="static table reconstruction (abstract evaluation of spec modules) + bit-vector abstract evaluation of the accessor + AST def-use patterns",
@@ -263,7 +263,7 @@ CHECKS = {
              "the low 12 bits in the property's domain are routed through both trees: the text-form leaf must equal the "
              "reference written from the statement, the bit rows must partition 0xFFFFFFFF and use the same table, index "
              "mask, number mask and shift as the text form. N2: the three name tables equal pinned/rc_tables.json, no "
-             "duplicate keys. The whole domain is finite and enumerated. N1 evaluates helper functions / methods of TPM_RC symbolically (division by a power of two = shift). The walker models module-level Enum members, comparisons through conditional values, rows appended with += / extend, symbolic row masks and arbitrary integer arithmetic on the enumerated low 12 bits (computed per code); a local read on a path that never assigned it is an outcome, not an analysis error.",
+             "duplicate keys. The whole domain is finite and enumerated. N1 evaluates helper functions / methods of TPM_RC symbolically (division by a power of two = shift). The walker models module-level Enum members, comparisons through conditional values, rows appended with += / extend, symbolic row masks and arbitrary integer arithmetic on the enumerated low 12 bits (computed per code); a local read on a path that never assigned it is an outcome, not an analysis error. Name tables may be table objects (rows flattened into a tuple, `rows[code & mask]`): N2 requires one row per code number the mask can produce.",
         note="trusted: CPython ast; constant folding of tpm_rc.py; dict/defaultdict lookup semantics. TPM 1.2-style "
              "codes (bits 7 and 8 clear) are outside the property's domain and not judged.",
         technique="symbolic path enumeration of the two classifier methods + exhaustive finite-domain comparison with a reference tree",
@@ -278,7 +278,7 @@ CHECKS = {
              "bytes and warn mode to the selected front-end and prints every item the selected printer yields (hex for bytes) "
              "with no cut in the loop; L4 the type search decodes strictly and catches exactly the documented error classes; "
              "L5 example output is under the command-code filter / exact-type selection and rendered from one event list. The "
-             "statement's observable (stdout / exit status of a process) is not decided. L2 the suggestion lookup cannot fail; L7 an eager Canonical has decoded inside its constructor with the arguments it was given, `type` lists the decoded type name (responses with their command code); L6 no unbound local / undefined name. L8 cc_name folded over all command codes gives the member's name; L7 also checks the plumbing of the type listing. L9 (= C15-F2) every front-end returns the decoder's result; L4 folds the tests on the candidate type over the layout's type listing (stream type and unions skipped, Response with every command code).",
+             "statement's observable (stdout / exit status of a process) is not decided. L2 the suggestion lookup cannot fail; L7 an eager Canonical has decoded inside its constructor with the arguments it was given, `type` lists the decoded type name (responses with their command code); L6 no unbound local / undefined name. L8 cc_name folded over all command codes gives the member's name; L7 also checks the plumbing of the type listing. L9 (= C15-F2) every front-end returns the decoder's result; L4 folds the tests on the candidate type over the layout's type listing (stream type and unions skipped, Response with every command code). L11 (= C11-A1) the members a message may lack are exactly those the object-to-events conversion leaves out; L4 follows candidate generators and command-code name tables; L7 accepts any whole-content read of args.file through a reader of tpmstream.io.",
         note="weakest claim: shape of __main__.py only; trusted: argparse semantics.",
         technique="table agreement + decision lists over path summaries of the CLI functions",
         design="4/C19",
@@ -289,7 +289,7 @@ CHECKS = {
              "the 4x117 area tables reconstructed from source, including dict-literal duplicate keys that are "
              "invisible at run time; T6 compares the canonical layout (field order, names, types, widths, "
              "signedness, valid sets, member names, masks, selector maps, TPM_CC, tables) with pinned/layout.json; T7 the table "
-             "of all types holds one class object per type name.",
+             "of all types holds one class object per type name. T8 (= C01-W7) the selector -> member mapping the decoder uses is the pinned one; lookup tables (_selectors, _selected_by, _list_size) are compared up to entry order (for _selected_by: up to the order among different selector values).",
         note="trusted: CPython ast; E1 model of tpm_dataclass/tpm_enum/tpm_bitfield, re-validated by guard rules G1-G7 "
              "on every run and cross-checked against runtime reflection at development time (selftest/fidelity.py, "
              "0 mismatches on 718 types). The pinned snapshot was generated from the tree after fixes F1/F7.",
